@@ -88,6 +88,23 @@ def compare_script(ctx, case, o):
     exp, P = case["exp"], case["P"]
     if new_panic(ctx, P, o, case):
         return
+    if case["sys"] == "mixed":
+        u = case["uenc"]
+        tag = "mixed:prog-v%d-fmt%d:unit-v%d-fmt%d" % (P["ver"], P["fmt"], u["ver"], u["fmt"])
+        ctx.nontrivial(canon([P, u]))
+        if exp.get("refuse"):
+            # a version >= 5 program under a unit of version < 5: write() must refuse; which error is drift
+            if o is not None and "outcome" not in o and o.get("ok"):
+                ctx.violation(tag + ":not-refused", "LineProgram::write accepted an incompatible unit encoding", case, o)
+            elif o is None or "outcome" in o:
+                ctx.violation(tag + ":%s" % (o or {}).get("outcome"), "write did not return normally: %s" % json.dumps(o)[:300], case, o)
+            return
+        if o is not None and "outcome" not in o and o.get("ok") and "read" not in o:
+            d = rows_diff(exp["rows"], o["rows"]) or ("rerr" if o.get("rerr") else None)
+            if d:
+                ctx.violation("%s:rows:%s" % (tag, d), "program written for a unit of another version/format: rows read back %s (%s), generated %s; opcodes %s"
+                              % (o["rows"], o.get("rerr"), exp["rows"], o.get("ins")), case, o)
+                return
     if o is None or "outcome" in o:
         oc, loc = (o or {}).get("outcome"), (o or {}).get("loc", "")
         if exp.get("ovf"):
@@ -178,9 +195,9 @@ def run(ctx):
     profiles = ["dev"] if q else ["dev", "release"]
     bins = {p: ctx.build("gvh-linew", p) for p in profiles}
     if q:
-        cfg = write_cfg("MCLineWriter_run", 300, 600, 3, 2, [1, 3, 4, 8], ["grid", "script", "files"], True)
+        cfg = write_cfg("MCLineWriter_run", 300, 600, 3, 2, [1, 3, 4, 8], ["grid", "script", "files", "mixed"], True)
     else:
-        cfg = write_cfg("MCLineWriter_run", 300, 600, 4, 3, list(range(1, 13)), ["grid", "script", "files"], False)
+        cfg = write_cfg("MCLineWriter_run", 300, 600, 4, 3, list(range(1, 13)), ["grid", "script", "files", "mixed"], False)
     r = ctx.tlc("MCLineWriter", cfg, timeout=4 * 3600)
     for tag, body in r.prints:
         if tag == "MODELDIFF":
